@@ -101,6 +101,7 @@ fn run_with(pool: &[(String, String)], case: &Case, out: &mut Out) {
     for op in &case.ops {
         let a = &op.args;
         match op.name.as_str() {
+            "idna" => out.obs(&[]),
             "add" | "addbad" => {
                 let (idx, ovn, ove, exp, names): (i128, bool, bool, i128, Vec<Vec<u8>>) =
                     if op.name == "add" { (a[0].n(), a[1].n() == 1, a[2].n() == 1, a[4].n(), a[5..].iter().map(|t| t.b().to_vec()).collect()) } else { (-1, false, false, 0, vec![]) };
